@@ -5,6 +5,7 @@ int main(int argc, char **argv) {
     vf::opts o(argc, argv);
     vf::install_crash_handler();
     RUN("promise_history", 1, true, scn::promise_history(o, R, o.cases / 4 + 1));
+    RUN("promise_default_history", 1, true, scn::promise_default_history(o, R, o.cases / 4 + 1));
     RUN("future_mt", o.threads, true, scn::future_mt(o, R, T, o.cases, scn::FUT_C01));
     return 0;
 }
